@@ -191,15 +191,17 @@ def insertWaiter (ws : List Waiter) (w : Waiter) : List Waiter :=
 
 def findHolder (k : Key) (lockId : Nat) : Option Hold := k.holders.find? (·.cmd.lockId == lockId)
 
-def replaceHolder (hs : List Hold) (hid : Nat) (h' : Hold) : List Hold :=
+/-- replace the first record equal to `h` by `h'` (records carry a unique `hid`, so this is "that record") -/
+def replaceHolder (hs : List Hold) (h h' : Hold) : List Hold :=
   match hs with
   | [] => []
-  | h :: rest => if h.hid == hid then h' :: rest else h :: replaceHolder rest hid h'
+  | x :: rest => if x = h then h' :: rest else x :: replaceHolder rest h h'
 
-def removeHolder (hs : List Hold) (hid : Nat) : List Hold :=
+/-- remove the first record equal to `h` -/
+def removeHolder (hs : List Hold) (h : Hold) : List Hold :=
   match hs with
   | [] => []
-  | h :: rest => if h.hid == hid then rest else h :: removeHolder rest hid
+  | x :: rest => if x = h then rest else x :: removeHolder rest h
 
 /-! ### granting (`AddLock` + counters), shared by the direct grant and the wake-up grant -/
 
@@ -333,13 +335,13 @@ def applyLock (db : DB) (c : Cmd) : LockBranch → DB × List Reply
     let k := db.getKey c.key
     let c' := { c with lockId := h.cmd.lockId }
     let (db1, h') := updateHold db h c'
-    let k' := { k with holders := replaceHolder k.holders h.hid h' }
+    let k' := { k with holders := replaceHolder k.holders h h' }
     (db1.setKey k', [mkReply c' RESULT_LOCKED_ERROR k.locked h.depth])
   | .relockNoHold h => (db, [mkReply c RESULT_SUCCED (db.getKey c.key).locked h.depth])
   | .relock h =>
     let k := db.getKey c.key
     let (db1, h1) := updateHold db { h with depth := h.depth + 1 } c
-    let k' := { k with holders := replaceHolder k.holders h.hid h1, locked := k.locked + 1 }
+    let k' := { k with holders := replaceHolder k.holders h h1, locked := k.locked + 1 }
     let db2 := { db1 with ctr := { db1.ctr with lockCount := db1.ctr.lockCount + 1, lockedCount := db1.ctr.lockedCount + 1 } }
     (db2.setKey k', [mkReply c RESULT_SUCCED k'.locked h1.depth])
   | .relockRefused h => (db, [mkReply c RESULT_LOCKED_ERROR (db.getKey c.key).locked h.depth])
@@ -428,13 +430,13 @@ def applyUnlock (db : DB) (c : Cmd) : UnlockBranch → DB × List Reply
   | .dec h c' =>
     let k := db.getKey c.key
     let h' := { h with depth := h.depth - 1 }
-    let k1 := { k with holders := replaceHolder k.holders h.hid h', locked := k.locked - 1 }
+    let k1 := { k with holders := replaceHolder k.holders h h', locked := k.locked - 1 }
     let db1 := { db with ctr := { db.ctr with unLockCount := db.ctr.unLockCount + 1, lockedCount := db.ctr.lockedCount - 1 } }
     let (db2, k2, out) := wake db1 k1 [mkReply c' RESULT_SUCCED k1.locked h'.depth]
     (db2.setKey k2, out)
   | .release h c' =>
     let k := db.getKey c.key
-    let k1 := { k with holders := removeHolder k.holders h.hid, locked := k.locked - h.depth }
+    let k1 := { k with holders := removeHolder k.holders h, locked := k.locked - h.depth }
     let db1 := { db with ctr := { db.ctr with unLockCount := db.ctr.unLockCount + h.depth, lockedCount := db.ctr.lockedCount - h.depth } }
     let (db2, k2, out) := wake db1 k1 [mkReply c' RESULT_SUCCED k1.locked 0]
     (db2.setKey k2, out)
@@ -452,9 +454,9 @@ def fireTimeout (db : DB) (w : Waiter) : DB × List Reply :=
   (db1.setKey k', [mkReply { w.cmd with conn := w.conn } RESULT_TIMEOUT k.locked 0])
 
 /-- `doExpried` for a live hold on the leader. -/
-def fireExpire (db : DB) (h : Hold) : DB × List Reply :=
-  let k := db.getKey h.cmd.key
-  let k1 := { k with holders := removeHolder k.holders h.hid, locked := k.locked - h.depth }
+def fireExpire (db : DB) (key : Nat) (h : Hold) : DB × List Reply :=
+  let k := db.getKey key
+  let k1 := { k with holders := removeHolder k.holders h, locked := k.locked - h.depth }
   let db1 := { db with ctr := { db.ctr with lockedCount := db.ctr.lockedCount - h.depth, expriedCount := db.ctr.expriedCount + 1 } }
   let (db2, k2, out) := wake db1 k1 [mkReply { h.cmd with conn := h.conn } RESULT_EXPRIED k1.locked 0]
   (db2.setKey k2, out)
@@ -474,7 +476,7 @@ def updateWaiter (db : DB) (w w' : Waiter) : DB :=
 
 def updateHoldIn (db : DB) (h h' : Hold) : DB :=
   let k := db.getKey h.cmd.key
-  db.setKey { k with holders := replaceHolder k.holders h.hid h' }
+  db.setKey { k with holders := replaceHolder k.holders h h' }
 
 /-- `checkTimeTimeOut(c, now)`: visit slot `c`, re-arm what is not due, then fire what is. -/
 def sweepTimeout (db : DB) (c : Nat) : DB × List Reply :=
@@ -509,7 +511,7 @@ def sweepExpire (db : DB) (c : Nat) : DB × List Reply :=
     -- a hold fired earlier in this pass may have let a waiter in; `h` itself is still the same record
     match (d.getKey h.cmd.key).holders.find? (·.hid == h.hid) with
     | some h' =>
-      let (d', r) := fireExpire d h'
+      let (d', r) := fireExpire d h.cmd.key h'
       (d', out ++ r)
     | none => (d, out)) (db1, [])
 
